@@ -175,6 +175,31 @@ Unlock(p) ==
      /\ Un(<<under, mem, cache, noUp, now, dead, forever>>)
      /\ Lbl("unlock", p, IF ok THEN OK ELSE ERR)
 
+\* Lock(p) is in flight - it holds the critical section and waits for the underlying agent - when another client's
+\* List (LockRace) or RemoveAll (LockRace2) arrives.  The two critical sections are ordered one way or the other;
+\* the label carries Lock's result in ok and the other call's outcome in l1/l2/by.  (Only staged when the lock will
+\* be granted: shim unlocked, underlying agent unlocked and reachable.)
+LockedBy(p) == /\ locked' = TRUE /\ ulocked' = TRUE /\ upass' = p
+LockRace(p) ==
+  /\ "lockrace" \in Ops /\ ~locked /\ ~dead /\ ~ulocked
+  /\ \/ \* List first, then Lock
+        LET f == Filter  v == f.l \ Hidden(f.l, f.cache) IN
+        /\ under' = f.under /\ mem' = f.mem /\ cache' = Fill(f.l, f.cache) /\ LockedBy(p)
+        /\ Un(<<noUp, now, dead, forever>>)
+        /\ Lbl("lockrace", p, R(TRUE, f.mem \cup v, f.mem \cap v, "list-ok"))
+     \/ \* Lock first, then List (of a locked shim: empty)
+        /\ LockedBy(p) /\ Un(<<under, mem, cache, noUp, now, dead, forever>>)
+        /\ Lbl("lockrace", p, R(TRUE, {}, {}, "list-ok"))
+LockRace2(p) ==
+  /\ "lockrace2" \in Ops /\ ~locked /\ ~dead /\ ~ulocked
+  /\ \/ \* RemoveAll first, then Lock
+        /\ under' = {} /\ mem' = {} /\ cache' = {} /\ LockedBy(p)
+        /\ Un(<<noUp, now, dead, forever>>)
+        /\ Lbl("lockrace2", p, R(TRUE, {}, {}, "ra-ok"))
+     \/ \* Lock first: RemoveAll is refused and changes nothing
+        /\ LockedBy(p) /\ Un(<<under, mem, cache, noUp, now, dead, forever>>)
+        /\ Lbl("lockrace2", p, R(TRUE, {}, {}, "ra-err"))
+
 \* Close refuses while locked; otherwise the connection to the underlying agent is gone.
 Close ==
   /\ "close" \in Ops /\ ~dead
@@ -313,7 +338,7 @@ NextOps == \/ Extension
            \/ \E i \in Ids : Sign(i) \/ Add(i) \/ Remove(i)
            \/ \E c \in Certs : AddHard(c)
            \/ \E k \in Keys : AddHardKey(k)
-           \/ \E p \in Pass : Lock(p) \/ Unlock(p)
+           \/ \E p \in Pass : Lock(p) \/ Unlock(p) \/ LockRace(p) \/ LockRace2(p)
            \/ \E q \in {"ext", "list"} \cup (IF "fwdbig" \in Ops THEN {"big"} ELSE {}) : Forward(q)
 NextEnv == \/ Tick \/ DirectLock \/ DirectUnlock \/ \E i \in Ids : DirectRemove(i) \/ DirectAdd(i)
 NextFault == \E op \in Ops, kind \in FaultKinds, h \in {"list", "sign", "add", "remove", "removeall", "lock", "unlock", "raw"} :
@@ -330,7 +355,7 @@ B(x) == IF x THEN 1 ELSE 0
 ShimOps == {"list", "signers", "sign", "add", "addhard", "remove", "removeall", "lock", "unlock", "close", "forward", "extension", "fstorm"}
 \* an operation that does not return delivers none of the results the properties speak about (the harness watchdog
 \* records it as by = "hang")
-Returned == e.op \in ShimOps => e.res.by # "hang"
+Returned == e.op \in ShimOps \cup {"lockrace", "lockrace2"} => e.res.by # "hang"
 
 \* C07 - no expired / premature / keyless certificate is listed or used; they are purged
 C07_Step ==
@@ -365,6 +390,17 @@ C08_Step ==
         /\ (e.res.ok => (locked' /\ ulocked' /\ ~ulocked))
         /\ (~e.res.ok => (~locked' /\ ulocked' = ulocked))
   /\ (e.op \in ShimOps \ {"lock", "unlock"}) => locked' = locked
+  \* a call that overlaps a lock in flight is served entirely before the lock or entirely after it: a listing shows
+  \* the whole pre-lock view or nothing; a removal removes everything and succeeds or fails and changes nothing
+  /\ (e.op = "lockrace" /\ NF /\ ~locked /\ ~dead /\ ~ulocked) =>
+        /\ e.res.ok /\ locked' /\ e.res.by = "list-ok"
+        /\ LET f == Filter  v == f.l \ Hidden(f.l, f.cache) IN
+           \/ e.res.l1 = {}
+           \/ (e.res.l1 = f.mem \cup v /\ e.res.l2 = f.mem \cap v)
+  /\ (e.op = "lockrace2" /\ NF /\ ~locked /\ ~dead /\ ~ulocked) =>
+        /\ e.res.ok /\ locked'
+        /\ \/ (e.res.by = "ra-ok" /\ under' = {} /\ mem' = {})
+           \/ (e.res.by = "ra-err" /\ under' = under /\ mem' = mem)
 
 \* C09 - no-upstream mode hides the underlying agent's YSSHCA certificates, nothing else
 Vis == UList \ ExpAgent(UList)          \* what the underlying agent can contribute to a listing
